@@ -23,6 +23,15 @@ Proof.
   eapply runt_prog; eauto. now apply late_busy.
 Qed.
 
+Lemma run_returns_after_failure_lc P s e :
+  fix_c09 P = true -> fix_lc P = true -> good_pool P -> good_children P ->
+  greach P s -> took s = Some e -> (forall r, runt s <> TDone r) ->
+  exists l s', env_label l = false /\ step P s l = Some s'.
+Proof.
+  intros Hf Hlc Hp Hg Hr. apply run_returns_after_failure; auto.
+  apply not_overtaken; auto using greach_reach.
+Qed.
+
 (* ---- after Run() holds reloadMu on the failure path no Reload() is, or ever gets, inside ---- *)
 
 Definition after_lock (p : tpc) : bool :=
@@ -77,6 +86,8 @@ Proof.
   all: try (split; [intros Hs; discriminate Hs|intros _];
             match goal with Hd : all_done ORun ?s = true |- _ => exact (all_done_wof _ _ Hd) end).
   all: try (split; [intros Hs; discriminate Hs|intros _; apply B; reflexivity]).
+  all: try (rewrite (filter_release (fun o => owner_eqb o ORun)); split;
+            [intros Hs; rewrite (A Hs); reflexivity|intros Hj; rewrite forallb_wdone_release; auto]).
 Qed.
 
 Lemma c10b_reach P s : reach P s -> T_quiet P s /\ T_done s.
